@@ -255,6 +255,15 @@ func (c *client) String() string {
 func (c *client) inFlightUp() error {
 	c.inFlightM.Lock()
 	c.inFlight++
+	if int32(c.inFlight) <= 0 {
+		// The reader can get to inFlightDown for a response before the sender
+		// of its request gets here, so inFlight, read as a signed number, can be
+		// negative for a moment. Zero or less means that every request counted
+		// so far has been answered: nothing is in flight and there is no
+		// deadline to set.
+		c.inFlightM.Unlock()
+		return nil
+	}
 	// we expect that at least the last request can be completed within readTimeout
 	if err := c.conn.SetReadDeadline(time.Now().Add(c.readTimeout)); err != nil {
 		c.inFlightM.Unlock()
@@ -266,6 +275,8 @@ func (c *client) inFlightUp() error {
 
 func (c *client) inFlightDown() error {
 	c.inFlightM.Lock()
+	// this goes below zero (wraps around) if the sender of the request hasn't
+	// called inFlightUp yet, inFlightUp accounts for that
 	c.inFlight--
 	// reset read timeout if we are not waiting for any responses
 	// in order to prevent from closing this client if there are no request
